@@ -393,7 +393,7 @@ def run(ctx):
     # ---- 1. TLC: route families and laws of the reference on every small state
     ctx.model_check("MC_C13", "MC_quick.cfg" if quick else "MC_thorough.cfg", name="route families x states",
                     require_actions=MODEL_ACTIONS, timeout=2400)
-    for cfg, inv, what in (SELFTESTS[:2] if quick else SELFTESTS):
+    for cfg, inv, what in (SELFTESTS[:1] if quick else SELFTESTS):
         r = T.run_tlc("MC_C13", cfg, ctx.spec_dir, workers=2, allow_violation=True, scratch=ctx.scratch, timeout=600)
         if r.violated != inv:
             raise MachineryError("model self-test %s: %s was not violated" % (cfg, inv))
@@ -461,7 +461,7 @@ def run(ctx):
     lap("replay_table")
     # ---- 3b. S->C: the small states TLC enumerated, realised as real two-site networks
     states.sort(key=lambda c: (c["dims"], c["psi"]))
-    chosen = states if not quick else rng.sample(states, 40)
+    chosen = states if not quick else rng.sample(states, 30)
     ctx.extra["states_from_tlc"] = {"printed": len(states), "replayed": len(chosen)}
     for k, stt in enumerate(chosen):
         cls = ("mps", "tree")[k % 2]
